@@ -32,6 +32,10 @@ def check(ctx):
     ctx.doc('R3', 'the stacked rows carry the kinds their column labels name (atom, outer site before/after, inner site before/after, frame t)')
     ctx.doc('R4', 'previous site = forward fill, next site = backward fill of the outer states, fill marker NOSITE, along the frame axis')
     ctx.floor('R2', 4)
+    ctx.doc('K1', '[C20.R1] states_prev / states_next are served through weak_lru_cache: its cache must be keyed on weakref.ref(self) '
+                  '(an id()-keyed cache hands a dead object\'s result to a new object at the same address)')
+    from .C20 import check_decorator
+    check_decorator(ctx, 'K1')
     ctx.floor('R3', 6)
     ctx.floor('R4', 2)
     it = ctx.entry(FT)
